@@ -5,6 +5,7 @@ package main
 
 import (
 	"fmt"
+	"go/token"
 	"go/types"
 	"math"
 	"regexp"
@@ -14,6 +15,11 @@ import (
 	"unsafe"
 
 	"golang.org/x/tools/go/ssa"
+)
+
+const (
+	tokenLSS = token.LSS
+	tokenGTR = token.GTR
 )
 
 type intrinsic func(in *Interp, fr *frame, args []value) value
@@ -586,6 +592,7 @@ func init() {
 	addSyncIntrinsics()
 	addBinaryIntrinsics()
 	addXzIntrinsics()
+	addStoreIntrinsics()
 }
 
 func (in *Interp) mkError(msg string) value {
